@@ -212,6 +212,12 @@ def core_pool():
     c.append(make([p('u32', 8), p('u8'), v('u64', 8), p('u32', 4), p('double', 4)], tags={'layout', 'risky'}))
     c.append(make([p('u32'), v('double', 8), p('u32')], tags={'layout', 'risky'}))
     c.append(make([p('u32'), v('float'), f('double', 8)], tags={'layout', 'risky'}))
+    # an aligned VaryingSize span whose alignment does not exceed that of its (unaligned, packed) count parameter, with
+    # the count ending off the alignment grid: behind an odd-sized parameter, behind a span of odd byte length
+    c.append(make([p('u8'), p('u32'), v('float', 4)], tags={'layout', 'risky', 'countalign'}))
+    c.append(make([p('u32'), v('char'), p('u32'), v('float', 4)], tags={'layout', 'risky', 'countalign'}))
+    c.append(make([f('u8'), p('u16'), v('u16', 2), p('u8')], tags={'layout', 'risky', 'countalign'}))
+    c.append(make([p('B3'), p('sz'), v('double', 8), p('Tracked')], tags={'layout', 'risky', 'countalign', 'tracked', 'nontrivial'}))
     return c
 
 
